@@ -83,7 +83,31 @@ def special_models():
     out.append([J, N("TYPE @rx regex\n/ab[0-9]{2}/"), N("GET /a", [N('200\n{"z": @rx}')]), N("GET /b", [N('200\n{"z": @rx}')])])
     out.append([J, N('TYPE @i\n1 // {enum: @en}'), N("ENUM @en\n[1, 2]"),
                 N("URL /e/{id}", [N('Path\n{\n  "id": @i\n}'), N("GET", [N("200 any")])]), N("GET /e/{id}/z", [N("200 @i")])])
+    # every consumer of a user type through an ALIAS type (a type whose body is a bare reference): the alias
+    # may stand before the consumer and its target after it
+    obj, alias = N('TYPE @obj\n{\n  "h": "v"\n}'), N("TYPE @alias\n@obj")
+    out.append([J, obj, alias, N("GET /h", [N("200", [N("Headers\n@alias"), N("Body any")])]),
+                N("POST /h", [N("Request", [N("Headers\n@alias"), N("Body @alias")]), N("201 any")])])
+    out.append([J, obj, alias, N("GET /q", [N('Query "h=v"\n@alias'), N("200 @alias")]), N("GET /arr", [N("200 [@alias]")])])
+    out.append([J, N('TYPE @pid\n{\n  "id": 1\n}'), N("TYPE @palias\n@pid"), N("URL /p/{id}", [N("Path\n@palias"), N("GET", [N("200 any")])]),
+                N("GET /p/{id}/sub", [N("200 any")])])
+    out.append([J, obj, alias, N('URL /rpc', [N("Protocol json-rpc-2.0"), N("Method m", [N("Params\n@alias"), N("Result\n[@alias]")])])])
+    # Tags naming a tag that exists only because another interaction's path created it (finding F29)
+    out.append([J, N("GET /x/a", [N("200 any")]), N("GET /y", [N("Tags @x"), N("200 any")])])
     return out
+
+
+def implicit_tag_used(src):
+    """does a Tags directive name a tag that no TAG directive declares (it can only be the tag
+    generated from some interaction's path)?"""
+    declared, used = set(), set()
+    for line in src.split("\n"):
+        w = line.split()
+        if len(w) >= 2 and w[0] == "TAG":
+            declared.add(w[1].strip('"'))
+        if w and w[0] == "Tags":
+            used.update(x.strip('"') for x in w[1:] if x.startswith("@") or x.startswith('"@'))
+    return bool(used - declared)
 
 
 def render(roots):
@@ -198,6 +222,11 @@ def run(tier, out, model_ok, proof):
     else:
         res, crashes = docgen.run_build(cases)
         mism, skipped = [], 0
+    for i in range(len(special_models())):
+        b = res.get("g%d" % i)
+        if b is not None and b["end"] != "ok":
+            out.broken.append({"what": "hand-picked model %d is not accepted (the generator of this check has drifted from the code)" % i,
+                               "detail": (docgen.err_text(b) or b.get("panic", ""))[:200]})
     ok = accepted = 0
     for c in cases:
         cid = c["id"]
@@ -212,8 +241,9 @@ def run(tier, out, model_ok, proof):
         show = {"original": bytes.fromhex(next(x for x in cases if x["id"] == base)["files"]["root.jst"]).decode("latin1")[:2500],
                 "permuted": bytes.fromhex(c["files"]["root.jst"]).decode("latin1")[:2500]}
         if r["end"] != "ok":
-            out.violations.append({"what": "a permutation of the top-level blocks of an accepted document is rejected: %s" %
-                                   (docgen.err_text(r) or r.get("panic", ""))[:140], "class": "permutation-rejected", "input": show})
+            msg = docgen.err_text(r) or r.get("panic", "")
+            cls = "tags-names-implicit-path-tag" if msg.startswith("tag not found") and implicit_tag_used(show["original"]) else "permutation-rejected"
+            out.violations.append({"what": "a permutation of the top-level blocks of an accepted document is rejected: %s" % msg[:140], "class": cls, "input": show})
             continue
         if "json" not in r:
             out.violations.append({"what": "the permuted document builds but ToJson fails: %s" % r.get("jsonerr", "")[:120],
